@@ -51,9 +51,10 @@ type Outcome struct {
 	Log        []string       `json:"log,omitempty"`      // canonical event log (only when requested)
 	LogHash    string         `json:"log_hash"`
 	HarnessErr string         `json:"harness_err,omitempty"`
-	Crashed    string         `json:"crashed,omitempty"` // filled by the parent when the worker died / hung
-	Extra      map[string]int `json:"extra,omitempty"`   // additional counters (interleavings etc.)
+	Crashed    string         `json:"crashed,omitempty"`    // filled by the parent when the worker died / hung
+	Extra      map[string]int `json:"extra,omitempty"`      // additional counters (interleavings etc.)
 	PrevSeeds  []uint64       `json:"prev_seeds,omitempty"` // seeds the dying worker process had run before (crash triage)
+	Race       string         `json:"race,omitempty"`       // race detector report captured from the worker's stderr (-race builds)
 }
 
 // RunCtx is handed to a check for one run.
